@@ -47,9 +47,9 @@ pub fn geometry(interval_ms: u32) -> (bool, u64, u64) {
 pub struct C01;
 
 const THRESHOLDS: [f64; 10] = [0.0, 0.5, 1.0, 2.0, 2.5, 3.0, 5.0, 7.0, 20.0, 50.0];
-const INTERVALS: [u32; 30] = [
+const INTERVALS: [u32; 36] = [
     0, 1000, 500, 1000, 1500, 2000, 2500, 3000, 3500, 4000, 4500, 5000, 5500, 6000, 6500, 7000, 7500, 8000, 8500, 9000,
-    9500, 10000, 250, 300, 750, 12000, 20000, 0, 1000, 2000,
+    9500, 10000, 250, 300, 750, 12000, 20000, 1300, 1501, 2750, 999, 7777, 501, 0, 1000, 2000,
 ];
 
 impl Prop for C01 {
@@ -89,7 +89,7 @@ impl Prop for C01 {
                 let iv = match fam {
                     0 => *rng.pick(&[0u32, 1000]),
                     1 => *rng.pick(&INTERVALS[2..22]),
-                    2 => *rng.pick(&INTERVALS[22..27]),
+                    2 => *rng.pick(&INTERVALS[22..33]),
                     _ => *rng.pick(&INTERVALS),
                 };
                 let th = if rng.chance(1, 8) { rng.range(0, 30) as f64 } else { *rng.pick(&THRESHOLDS) };
